@@ -37,6 +37,8 @@ LeavesOf(f) ==
       [] f = "blocks" -> {Name("A"), Name("B"), Lit(3)}
       \* who sees which binding: operands of infix operators, branches, sub-expressions, all binding and reading A / B
       [] f = "scopes" -> {Name("A"), Name("B"), Lit(1), Lit(2)}
+      \* a user binding that carries the name of a builtin word, read at several block depths
+      [] f = "shadow" -> {Name("length"), Name("A"), Lit(3)}
       \* sub-chains that are fed several times, each time a stream of several stacks: multi-yield chunks as leaves
       [] f = "refeed" -> {P12, T2, T3, Lit(7), Emp, W("dup"), W("drop")}
 
@@ -50,6 +52,7 @@ UnaryOf(f) ==
       [] f = "blocks" -> {"bapply", "letFcall"}
       [] f = "scopes" -> {"letA", "letB", "scopeA", "subA", "capA", "sub?", "fmt1"}
       [] f = "refeed" -> {"let1", "fmt1", "opt", "star", "sub?"}
+      [] f = "shadow" -> {"bapply", "scopeL", "letL", "letFcall"}
 
 BinaryOf(f) ==
     CASE f = "altor" -> {"cat", "alt", "or"}
@@ -60,6 +63,7 @@ BinaryOf(f) ==
       [] f = "blocks" -> {"cat"}
       [] f = "scopes" -> {"cat", "eq", "alt", "or"}
       [] f = "refeed" -> {"cat", "or"}
+      [] f = "shadow" -> {"cat"}
 
 MkUnary(u, a) ==
     CASE u = "cap"  -> Cap(a)
@@ -76,6 +80,8 @@ MkUnary(u, a) ==
       [] u = "letB" -> Let(<<"B">>, a)
       [] u = "letAB" -> Let(<<"A", "B">>, a)
       [] u = "scopeA" -> Scope(<<"A">>, a)
+      [] u = "scopeL" -> Scope(<<"length">>, a)
+      [] u = "letL" -> Let(<<"length">>, a)
       [] u = "scopeAB" -> Scope(<<"A", "B">>, a)
       [] u = "capA" -> CapB(<<"A">>, a)
       [] u = "subA" -> SubB("?", <<"A">>, a)
@@ -211,7 +217,7 @@ UsesBlocksParts(parts, j) ==
 
 \* what a family puts between the input source and the body
 Prefix(f) ==
-    IF f \in {"blocks", "scopes"} THEN Cat(Let(<<"A">>, Emp), Let(<<"B">>, Lit(7)))   \* let A := ; let B := 7;
+    IF f \in {"blocks", "scopes", "shadow"} THEN Cat(Let(<<"A">>, Emp), Let(<<"B">>, Lit(7)))   \* let A := ; let B := 7;
     ELSE Emp
 
 \* The body is legal on a stack of depth d: names closed, effect defined.
